@@ -1177,6 +1177,8 @@ package otto
 //@   implements stasher.clone
 //@   assumes s != nil && s.object != nil
 //@   ensures is(result, *objectStash) && has(c.objectstash, s) && c.objectstash[s] == result.(*objectStash)
+//@   calls (*cloner).stash(_, old(s.outr)) as so when false
+//@   ensures !old(has(c.objectstash, s)) ==> called(so) && result.(*objectStash).outr == so
 //@   ensures old(has(c.objectstash, s)) ==> result.(*objectStash) == old(c.objectstash[s])
 //@   ensures !old(has(c.objectstash, s)) ==> is(result, *objectStash) && result.(*objectStash) != s && result.(*objectStash).rt == c.runtime && cloneOfO(c, old(s.object), result.(*objectStash).object)
 
@@ -1193,6 +1195,8 @@ package otto
 // the memo records the copy that is returned: a second path to the same scope gets the same
 // copy (closures that shared a scope still share it after Copy), already-copied scopes are returned as recorded
 //@   ensures has(c.dclstash, s) && c.dclstash[s] == result.(*dclStash)
+//@   calls (*cloner).stash(_, old(s.outr)) as so when false
+//@   ensures !old(has(c.dclstash, s)) ==> called(so) && result.(*dclStash).outr == so
 //@   ensures old(has(c.dclstash, s)) ==> result.(*dclStash) == old(c.dclstash[s])
 //@   ensures !old(has(c.dclstash, s)) ==> result.(*dclStash) != s && result.(*dclStash).rt == c.runtime && result.(*dclStash).property != nil && result.(*dclStash).property != old(s.property)
 //@   ensures !old(has(c.dclstash, s)) ==> (forall k string :: has(result.(*dclStash).property, k) ==> old(has(s.property, k)))
@@ -1237,7 +1241,7 @@ package otto
 // newContext installs every well-known object (assumed of the runtime handed to clone)
 //@ spec globalsSet(rt *runtime) bool = rt.globalObject != nil && rt.global.Object != nil && rt.global.Function != nil && rt.global.Array != nil && rt.global.String != nil && rt.global.Boolean != nil && rt.global.Number != nil && rt.global.Math != nil && rt.global.Date != nil && rt.global.RegExp != nil && rt.global.Error != nil && rt.global.EvalError != nil && rt.global.TypeError != nil && rt.global.RangeError != nil && rt.global.ReferenceError != nil && rt.global.SyntaxError != nil && rt.global.URIError != nil && rt.global.JSON != nil && rt.global.ObjectPrototype != nil && rt.global.FunctionPrototype != nil && rt.global.ArrayPrototype != nil && rt.global.StringPrototype != nil && rt.global.BooleanPrototype != nil && rt.global.NumberPrototype != nil && rt.global.DatePrototype != nil && rt.global.RegExpPrototype != nil && rt.global.ErrorPrototype != nil && rt.global.EvalErrorPrototype != nil && rt.global.TypeErrorPrototype != nil && rt.global.RangeErrorPrototype != nil && rt.global.ReferenceErrorPrototype != nil && rt.global.SyntaxErrorPrototype != nil && rt.global.URIErrorPrototype != nil
 //@ func (*runtime).clone
-//@   props C17 C20 C14 C02
+//@   props C17 C20 C14 C02 C18
 //@   nosafety
 //@   requires rt != nil
 //@   assumes globalsSet(rt)
@@ -2750,6 +2754,21 @@ package otto
 //@   requires rt != nil && target != nil
 //@   calls toInt32(_) as tl
 //@   at_call (*object).defineProperty : arg1 == propertyLength ==> called(tl) && arg3 == 0 && arg2.kind == valueNumber && is(arg2.value, int) && arg2.value.(int) == ite(int(tl) - len(argumentList) < 0, 0, int(tl) - len(argumentList))
+
+// Otto.Eval on a runtime at rest enters the global scope itself and leaves it on every exit,
+// including a host panic or an interrupt inside the evaluated code.  The evaluation proper is
+// assumed to restore the stack (the inductive hypothesis of C18).
+//@ func (*runtime).cmplEval
+//@   trusted
+//@   requires rt != nil
+//@   preserves runtime.scope, scope.outer
+//@ func (Otto).Eval
+//@   props C18
+//@   nosafety
+//@   requires o.runtime != nil
+//@   dyn_preserves runtime.scope, scope.outer
+//@   preserves runtime.scope, scope.outer
+//@   fresh_refs
 
 // ToPropertyDescriptor (8.10.5): a field of the descriptor object that is present sets the
 // corresponding attribute to ToBoolean of its value and leaves it unset otherwise; a present
